@@ -216,12 +216,15 @@ def gen_float(tape, label, noncanon, dotless=False):
         # a column in which no value has a decimal point (narrowPeak -1 columns, integer-valued bedGraph)
         kind = tape.weighted([(3, 0), (3, 4), (2 if noncanon else 0, 5)], label + ".fk")
     else:
-        kind = tape.weighted([(3, 0), (3, 1), (2, 2), (2 if noncanon else 0, 3), (1, 4), (1 if noncanon else 0, 6)], label + ".fk")
+        kind = tape.weighted([(3, 0), (3, 1), (2, 2), (2 if noncanon else 0, 3), (1, 4), (1 if noncanon else 0, 6), (1 if noncanon else 0, 7)], label + ".fk")
     ip = _digits(tape, 4, label + ".ip")
     if kind == 0:
         t = ip
     elif kind == 4:
         t = "-" + ip
+    elif kind == 7:
+        # a long decimal expansion ('%.20f' / '%.25f'): 19 and more digits behind the point
+        t = ip + "." + "".join("0123456789"[tape.draw(10, label + ".ld")] for _ in range(19 + tape.draw(8, label + ".ln")))
     elif kind == 6:
         # no digit in front of / behind the decimal point: .5  -.25  3.
         shape = tape.draw(3, label + ".dotshape")
@@ -413,6 +416,8 @@ def gen_records(tape, fmt, max_records, noncanon=True, min_records=1, style=None
         rec = {"texts": texts, "extra_cols": extra}
         if fmt.interior_comments and recs and tape.boolean("comment_line", 1, 3):
             rec["comment"] = "#" + gen_id(tape, "comment")
+            if tape.boolean("comment_line2", 1, 2):
+                rec["comment2"] = "##" + gen_id(tape, "comment2")      # two directly adjacent comment lines
         recs.append(rec)
     # file-level decisions that must be uniform over the records
     if fmt.allow_extra and not style.get("no_extra") and tape.boolean("extra_cols", 1, 4):
@@ -524,10 +529,11 @@ def serialize(fmt, records, style):
     lay = []
     line_no = 0
     for rec in records:
-        if rec.get("comment"):
-            out.append(rec["comment"] + nl)
-            pos += len(rec["comment"]) + len(nl)
-            line_no += 1
+        for key in ("comment", "comment2"):
+            if rec.get(key):
+                out.append(rec[key] + nl)
+                pos += len(rec[key]) + len(nl)
+                line_no += 1
         start = pos
         first_line = line_no
         fields = {}
